@@ -60,7 +60,7 @@ def floors(tier):
             'automaton_compared': 2000, 'ground_truth_pieces': 30000, 'formulas_checked': 15000,
             'hist:nesting:math-in-text-in-math': 50, 'hist:nesting:text-in-math': 200,
             'hist:adjacent:inline-inline-dollar': 20, 'mixed_mode_argument_calls': 200,
-            'direct_math_parser_calls': 5000, 'histkeys:math_parser_delimiters': 3}
+            'direct_math_parser_calls': 5000, 'legacy_bodies_read_in_supplied_math_state': 1500, 'histkeys:math_parser_delimiters': 3}
 
 
 def setup(rec):
@@ -304,10 +304,40 @@ def check_case(case, rec):
         err = ground_truth(case, s, nl, rec)
     if not err and case.get('automaton'):
         err = direct_math_parser(s, nl, rec)
+    if not err and case.get('legacy_body'):
+        err = legacy_body_in_math(s, ctx, case['legacy_body'], modes, rec)
     if any(canon.kind(n) == 'math' for n in canon.walk(nl)) or info:
         rec.nontrivial(s)
     if err:
         rec.violation(case, '%s | source %r | tree %s' % (err, s, canon.short(nl)[:500]), mech=err.split(' at ')[0][:40])
+
+
+def legacy_body_in_math(s, ctx, how, modes, rec):
+    """The document read by the legacy entry point get_latex_nodes() as the contents of a bracket / parenthesis / brace
+    group, with a parsing state supplied by the caller that is in math mode (what a pylatexenc-2 style arguments parser does
+    inside a formula): the nodes inherit that mode; text-like arguments and nested formulas switch relative to it."""
+    from ..util import walker
+    closing, delim = how
+    lw = walker(s + closing[-1], ctx, tolerant=False)
+    psm = lw.make_parsing_state(in_math_mode=True, math_mode_delimiter=delim)
+    try:
+        nodes = lw.get_latex_nodes(pos=0, stop_upon_closing_brace=(closing if len(closing) == 1 else tuple(closing)),
+                                   parsing_state=psm)[0]
+    except LatexWalkerParseError:
+        rec.monitor('legacy_body_rejected')
+        return None
+    except Exception as e:
+        return None
+    rec.monitor('legacy_bodies_read_in_supplied_math_state')
+    rec.hist('legacy_body_closing', closing)
+    info = {}
+    for n in nodes:
+        if n is None:
+            continue
+        err = propagate(s + closing[-1], n, True, delim if delim in CORE else '<noncore>', rec, modes, info)
+        if err:
+            return 'get_latex_nodes(stop_upon_closing_brace=%r, parsing_state=<math mode, delimiter %r>): %s' % (closing, delim, err)
+    return None
 
 
 def direct_math_parser(s, nl, rec):
@@ -407,7 +437,10 @@ def run_shard(desc, rec):
             rec.case()
             if i % 200 == 0:
                 rec.sample(s)
-            check_case({'s': s, 'ctx': cdesc, 'ast': D.to_jsonable(ast)}, rec)
+            case = {'s': s, 'ctx': cdesc, 'ast': D.to_jsonable(ast)}
+            if i % 3 == 0:
+                case['legacy_body'] = [rng.choice(['}', ']', ')', '>', '(]']), rng.choice([None, None, 'x'])]
+            check_case(case, rec)
 
 
 LEVEL_TEXT = ('Exploration with three independent oracles on the real parser: (1) top-down propagation of the implied mode over '
